@@ -222,15 +222,23 @@ def measure(cname, kw):
             if cname == "Cell":
                 o.setup_nml_cell()
     except ValueError:
-        return True, False, None
+        return True, False, None, None
     except Exception as e:  # noqa
-        return None, False, "ctor:%s" % type(e).__name__
+        return None, False, "ctor:%s" % type(e).__name__, None
     v = c10.validity(o)
-    return False, bool(v), (None if v is not None else "validate-crashed")
+    return False, bool(v), (None if v is not None else "validate-crashed"), o
+
+
+def member_fields(o, ids):
+    if o is None:
+        return []
+    return [[m[0], c10.ser_val(vars(o)[m[0]], ids)] for m in c10.real_members(type(o)) if m[0] in vars(o)]
 
 
 def classify(e):
     s = str(e)
+    if c10.classify_exc(e) == "strFails":       # raised by a __str__ helper while a duplicate warning was formatted
+        return "err:add:strFails"
     if isinstance(e, ValueError):
         m = re.match(r"'(.*)' is not a permitted argument", s)
         if m:
@@ -276,10 +284,10 @@ def factory_case(ctx, case):
     cname, kw = case["cls"], case["_kw"]
     C = c10.classes()
     names = [m[0] for m in c10.real_members(C[cname])]
-    cf, cv, odd = measure(cname, kw)
+    cf, cv, odd, plain = measure(cname, kw)
     ids = c10.Ids()
     line = {"op": "factory", "en": case["en"], "cls": cname, "form": case["form"], "kw": kw_json(kw, ids),
-            "flag": case["flag"], "cf": bool(cf), "cv": cv, "oid": 1000}
+            "flag": case["flag"], "cf": bool(cf), "cv": cv, "oid": 1000, "fields": member_fields(plain, ids)}
     saved = c10.get_switch()
     ret, exc = None, None
     try:
@@ -293,10 +301,7 @@ def factory_case(ctx, case):
     finally:
         c10.set_switch(saved)
     tag = "ok" if exc is None else classify(exc)
-    landed = None
-    if exc is None:
-        landed = sorted(k for k in kw if k in names and getattr(ret, k, None) not in (None, []))
-    rec = {"r": tag, "landed": landed}
+    rec = {"r": tag}
     pub = {k: v for k, v in case.items() if not k.startswith("_")}
     # ---- oracle (property statement on the real objects)
     gate = case["en"] and case["flag"]
@@ -314,6 +319,9 @@ def factory_case(ctx, case):
     if exc is None:
         if type(ret).__name__ != cname:
             fail("C09:wrong-type", "asked for %s, got %s" % (cname, type(ret).__name__))
+        lost = [k for k in kw if k in names and not c10.value_equal(getattr(ret, k, None), getattr(plain, k, None))]
+        if lost:
+            fail("C09:keyword-lost", "member keyword(s) %s did not reach the component as the constructor would set them" % lost)
         v = c10.validity(ret)
         if gate and v is not True:
             fail("C09:invalid-returned:" + case["kind"], "validation on, yet the returned %s fails an explicit validate()" % cname)
@@ -369,8 +377,7 @@ def run_factory(ctx, cases, stream="factory"):
         if l is not None:
             ctx.corr_evals += 1
             model = json.loads(l)
-            if model.get("landed") is not None:
-                model["landed"] = sorted(model["landed"])
+            model.pop("landed", None)
             if model != rec:
                 ctx.disagree(stream, pub, rec, model)
     for case, rec, _ in recs[:3]:
@@ -421,7 +428,7 @@ def run_addtype(ctx, scripts, stream="addtype"):
         for call in s["calls"]:
             kw = call["_kw"]
             cname = call["cls"]
-            cf, cv, odd = measure(cname, kw)
+            cf, cv, odd, plain = measure(cname, kw)
             child_names = [m[0] for m in c10.real_members(C[cname])]
             before = c10.snapshot(parent, ids)
             ret, exc, tags = None, None, []
@@ -465,7 +472,8 @@ def run_addtype(ctx, scripts, stream="addtype"):
                    "ret": next_oid if exc is None else None, "ch": ch}
             line["calls"].append({"cls": cname, "form": call["form"], "kw": kw_json(kw, ids), "flag": call["flag"],
                                   "cf": bool(cf), "cv": cv, "oid": next_oid, "en": call["en"], "hint": call["hint"],
-                                  "force": call["force"], "pv": bool(pv), "sok": sok})
+                                  "force": call["force"], "pv": bool(pv), "sok": sok,
+                                  "fields": member_fields(plain, ids)})
             pub = {k: v for k, v in call.items() if not k.startswith("_")}
             pub["parent"] = s["parent"]
             # ---- oracle
@@ -571,7 +579,7 @@ def run_sessions(ctx, sessions, stream="session"):
                 else:
                     d = c[1]
                     oid += 1
-                    cf, cv, odd = measure(d["cls"], d["_kw"])
+                    cf, cv, odd, _o = measure(d["cls"], d["_kw"])
                     odd_any = odd_any or bool(odd)
                     exc, ret = None, None
                     try:
@@ -651,13 +659,13 @@ def run(ctx):
     try:
         nvalid = 0
         for n in names:
-            cf, cv, odd = measure(n, valid_kwargs(n))
+            cf, cv, odd, _o = measure(n, valid_kwargs(n))
             nvalid += 1 if cv else 0
         ctx.extra["types_with_valid_keywords"] = "%d/%d" % (nvalid, len(names))
         run_factory(ctx, corpus_cases(ctx), "corpus")
         # every type x keyword kinds x 4 settings (x both forms in thorough)
         run_factory(ctx, gen_factory_cases(ctx, names, ctx.n(4, 8)), "factory")
-        ctx.extra["exhaustive"] = True
+        ctx.extra["exhaustive"] = ctx.tier == "thorough"
         ctx.extra["exhaustive_what"] = ("all %d component types x keyword kinds x 4 switch settings%s; all %d (parent, child) pairs "
                                         "with a candidate member for add(<type>)" % (
                                             len(names), " x both forms" if ctx.tier == "thorough" else " (forms alternate)", len(pairs())))
